@@ -146,6 +146,11 @@ CHECKS["C15"]["text"] += " Operands are left intact by every call; xarray operan
 CHECKS["C17"]["text"] += " payload-roundtrip: payload values (empty, one byte, pickled Syn / header, zlib stream, 300 kB; bytes and memoryview) through the real send_data and Listener. Non-integer sizes must be refused. Job fields filled in place after construction must reach the gateway."
 CHECKS["C18"]["text"] += " Report strings are fresh objects (as after unpickling); the uuid source returns non-str objects like uuid.UUID."
 CHECKS["C19"]["text"] += " Structured bound values (a dataclass instance, a named tuple, an ordered dict) must be carried as they are."
+for _p in ("C01", "C02", "C03"):
+    CHECKS[_p]["technique"] += "; and of the full real stack (Bridge, Executor.recv_loop, worker loop, runner, DataServer) joined in-process; unit obligations on single controller / scheduler calls"
+CHECKS["C04"]["technique"] += "; unit obligations on build_assignment, notify + flush_queues, plan"
+CHECKS["C11"]["technique"] += "; node / output / template names as CrossHair symbolic strings on fixed shapes"
+CHECKS["C12"]["technique"] += "; node / output names as CrossHair symbolic strings through the dict round-trip"
 CHECKS["C17"]["technique"] += "; framing: solver-driven enumeration of frame lists through the real Listener._recv_one"
 
 CHECKS.update({
@@ -168,6 +173,8 @@ CHECKS["C05"]["text"] += " Exit code 0 is an exit: while the executor runs, a ch
 CHECKS["C07"]["text"] += " A pool job may finish at the very moment it is observed (solver-chosen k-th look at a running job): every completed send has its completion recorded so that it can be retried."
 
 CHECKS["C07"]["text"] += " payload-roundtrip (shared with C17). The shm client is driven with two threads interleaved between send and recv, with an answer that arrives later than a receive timeout, and with the server gone."
+
+CHECKS["C05"]["technique"] += "; fault injection (solver-chosen failing task / dying helper / step) into the full real stack joined in-process"
 
 def main():
     checks = []
